@@ -42,6 +42,10 @@ func NewRouter() *Router {
 // route is called by the XMPP client to dispatch stanza received using the set up routes.
 // It is also used by test, but is not supposed to be used directly by users of the library.
 func (r *Router) route(s Sender, p stanza.Packet) {
+	if verifEnabled {
+		vpoint("route.begin", "name", p.Name())
+		defer vpoint("route.end", "name", p.Name())
+	}
 	a, isA := p.(stanza.SMAnswer)
 	if isA {
 		switch tt := s.(type) {
